@@ -70,6 +70,30 @@ namespace nmtools::array
             auto numel   = index::product(sizes_);
             // since size may be packed, the proper way to read dim is using len instead of sizes..+1
             auto new_dim = len(sizes_);
+            // validate before touching anything: a refused resize must leave the array unchanged
+            if constexpr (meta::is_resizable_v<shape_type>) {
+                if constexpr (meta::is_bounded_size_v<shape_type>) {
+                    if ((size_t)new_dim > (size_t)meta::bounded_size_v<shape_type>) {
+                        return false;
+                    }
+                }
+            } else {
+                if ((size_t)len(shape_) != (size_t)new_dim) {
+                    return false;
+                }
+            }
+            if constexpr (meta::is_resizable_v<buffer_type>) {
+                if constexpr (meta::is_bounded_size_v<buffer_type>) {
+                    if ((size_t)numel > (size_t)meta::bounded_size_v<buffer_type>) {
+                        return false;
+                    }
+                }
+            } else {
+                if ((size_t)len(data_) != (size_t)numel) {
+                    return false;
+                }
+            }
+            // commit
             if constexpr (meta::is_resizable_v<shape_type>) {
                 shape_.resize(new_dim);
             }
